@@ -4,7 +4,29 @@ import os
 import sys
 
 
+def quiet_progress_bars():
+    """xyzpy draws tqdm bars on stderr for every sweep; force them off (display only)."""
+    try:
+        import functools
+        import xyzpy.utils as U
+        import xyzpy.gen.combo_runner as A
+        import xyzpy.gen.cropping as B
+        import xyzpy.gen.case_runner as C
+        real = U.progbar
+
+        @functools.wraps(real)
+        def progbar(*a, **kw):
+            kw["disable"] = True
+            return real(*a, **kw)
+        for m in (U, A, B, C):
+            if hasattr(m, "progbar"):
+                m.progbar = progbar
+    except Exception:
+        pass
+
+
 def main():
+    quiet_progress_bars()
     ap = argparse.ArgumentParser()
     ap.add_argument("prop")
     ap.add_argument("--tier", default=os.environ.get("VERIF_TIER", "quick"), choices=["quick", "thorough"])
